@@ -42,7 +42,10 @@ type IfaceV struct {
 }
 
 // OpaqueV is a value the engine carries around but cannot look into (reflect.Type etc.).
-type OpaqueV struct{ tag string }
+type OpaqueV struct {
+	tag string
+	ref *fieldRef // reflect.Value stub: the addressed struct field
+}
 type mapEntry struct{ k, v Value }
 type MapV struct{ e []*mapEntry }
 type FuncV struct {
@@ -52,6 +55,7 @@ type FuncV struct {
 }
 type TupleV []Value
 type RangeIter struct {
+	str  *StrV
 	m    *MapV
 	left []*mapEntry
 	pos  []*Term
